@@ -79,6 +79,11 @@ def app_has_rows(S, y):
               S.t(MSG).exists(lambda r: r.app_id == y))
 
 
+@c.requires
+def _(c):
+    yield "I7", I.I7(c.pre)      # (every message hangs off a mailbox of its app: the messages query adds nothing new)
+
+
 @c.ensures
 def _(c):
     from .appnamespace import members
